@@ -43,7 +43,7 @@ pub struct SenderFlowS { pub applied: Ghost<Seq<LinkFlow>>, pub notified_at: Gho
 impl SenderFlowS {
     /// flow_state.state.on_incoming_flow(flow, output_handle) (LinkFlowState<SenderMarker>, unit LINKFLOW)
     #[verifier::external_body]
-    pub fn state_on_incoming_flow(&mut self, flow: LinkFlow, oh: OutputHandle) ensures final(self).applied@ == old(self).applied@.push(flow), final(self).notified_at == old(self).notified_at { unimplemented!() }
+    pub fn state_on_incoming_flow(&mut self, flow: LinkFlow, oh: OutputHandle) -> (r: Option<LinkFlow>) ensures final(self).applied@ == old(self).applied@.push(flow), final(self).notified_at == old(self).notified_at { unimplemented!() }
     /// flow_state.notifier.notify_waiters()
     #[verifier::external_body]
     pub fn notify_waiters(&mut self) ensures final(self).applied == old(self).applied, final(self).notified_at@ == old(self).applied@.len() { unimplemented!() }
@@ -51,8 +51,13 @@ impl SenderFlowS {
 pub struct ReceiverFlowS { pub applied: Ghost<Seq<LinkFlow>> }
 impl ReceiverFlowS {
     #[verifier::external_body]
-    pub fn on_incoming_flow(&mut self, flow: LinkFlow, oh: OutputHandle) ensures final(self).applied@ == old(self).applied@.push(flow) { unimplemented!() }
+    pub fn on_incoming_flow(&mut self, flow: LinkFlow, oh: OutputHandle) -> (r: Option<LinkFlow>) ensures final(self).applied@ == old(self).applied@.push(flow) { unimplemented!() }
 }
+/// `let _echo = <flow applied>;` in the replay of allocate_incoming_link: what LinkFlowState::on_incoming_flow returns is the flow the link OWES the peer in answer (drain: "all credit used up,
+/// delivery-count advanced, zero credit"; echo: the current state) -- None when nothing is owed
+pub fn answer_discarded(e: &Option<LinkFlow>)
+    requires *e is None,        // [C08.listener.replayed-flow-answered] an answer the link owes to a replayed flow is written, not dropped: a drain request pipelined behind the attach is applied (delivery-count advanced over all credit) but the receiver is never told, so every later grant of no more than that credit computes to zero and send() hangs
+{}
 pub enum LinkRelay { Sender { flow_state: SenderFlowS, output_handle: OutputHandle }, Receiver { flow_state: ReceiverFlowS, output_handle: OutputHandle } }
 pub open spec fn applied_of(r: LinkRelay) -> Seq<LinkFlow> { match r { LinkRelay::Sender { flow_state, .. } => flow_state.applied@, LinkRelay::Receiver { flow_state, .. } => flow_state.applied@ } }
 /// `releasable` (ghost): the session holds back transfers (peer's incoming window was exhausted) although the window it last computed is open
@@ -160,7 +165,8 @@ impl ListenerSession {
 //@@ ret Result<OutputHandle, AllocLinkError>
 //@@ param link_handle : LinkRelayIn
 //@@ subst `self.pending_link_flows.remove(&input_handle)` => `pending_remove(&mut self.pending_link_flows, &input_handle)` rule=R15
-//@@ subst `flow_state.state.on_incoming_flow(flow, oh.clone())` => `flow_state.state_on_incoming_flow(flow, oh.clone())` rule=R9
+//@@ subst `let _echo = flow_state.state.on_incoming_flow(flow, oh.clone());` => `let _echo = flow_state.state_on_incoming_flow(flow, oh.clone()); answer_discarded(&_echo);` rule=R9
+//@@ subst `let _echo = flow_state.on_incoming_flow(flow, oh.clone());` => `let _echo = flow_state.on_incoming_flow(flow, oh.clone()); answer_discarded(&_echo);` rule=R9
 //@@ subst `flow_state.notifier.notify_waiters()` => `flow_state.notify_waiters()` rule=R9
 //@@ spec
     ensures
